@@ -35,8 +35,8 @@ fn repl(args: &[String]) {
         if line.is_empty() || line.starts_with('#') {
             continue;
         }
-        let mut o = out.lock();
-        writeln!(o, "> {line}").unwrap();
+        // (the engine prints to stdout itself in a few places: the lock must not be held across a call)
+        writeln!(out.lock(), "> {line}").unwrap();
         let res = if let Some(rest) = line.strip_prefix('!') {
             let p: Vec<&str> = rest.splitn(3, ' ').collect();
             match p[0] {
@@ -54,7 +54,7 @@ fn repl(args: &[String]) {
                 "reopen" => e.reopen(cfg),
                 "explain" => match e.explain(&rest[8..]) {
                     Ok(s) => {
-                        writeln!(o, "{s}").unwrap();
+                        writeln!(out.lock(), "{s}").unwrap();
                         eng::Out::Ok
                     }
                     Err(m) => eng::Out::Err(eng::classify(&m), m),
@@ -64,6 +64,7 @@ fn repl(args: &[String]) {
         } else {
             e.exec(line)
         };
+        let mut o = out.lock();
         writeln!(o, "  {}", res.short()).unwrap();
         for x in util::take_panics() {
             writeln!(o, "  PANIC {x}").unwrap();
